@@ -10,13 +10,21 @@ use std::sync::LazyLock;
 use minijinja::{Environment, UndefinedBehavior, Value, context};
 use serde_yaml::value::Value as YamlValue;
 
-const OMIT_VALUE: &str = "OMIT_THIS_VARIABLE";
+/// What `{{ omit }}` renders to. The text is different in every run, so that no data (a file's
+/// content, an environment variable, a command's output) can be mistaken for it.
+static OMIT_VALUE: LazyLock<String> = LazyLock::new(|| {
+    let nanos = std::time::SystemTime::now()
+        .duration_since(std::time::UNIX_EPOCH)
+        .map(|d| d.as_nanos())
+        .unwrap_or_default();
+    format!("__omit_place_holder__{:x}_{nanos:x}", std::process::id())
+});
 
 fn init_env() -> Environment<'static> {
     let mut env = Environment::new();
     env.set_keep_trailing_newline(true);
     env.set_undefined_behavior(UndefinedBehavior::Strict);
-    env.add_global("omit", OMIT_VALUE);
+    env.add_global("omit", OMIT_VALUE.as_str());
     lookup::add_lookup_functions(&mut env);
     env
 }
@@ -91,8 +99,8 @@ pub fn render_force_string(value: YamlValue, vars: &Value) -> Result<YamlValue> 
 }
 
 fn skip_omit(x: String) -> Result<String> {
-    if x == OMIT_VALUE {
-        Err(Error::new(ErrorKind::OmitParam, OMIT_VALUE))
+    if x == *OMIT_VALUE {
+        Err(Error::new(ErrorKind::OmitParam, OMIT_VALUE.as_str()))
     } else {
         Ok(x)
     }
